@@ -150,6 +150,8 @@ class LocIndexer(Indexer):
 class LocBase(Blockwise):
     _parameters = ["frame", "iindexer", "cindexer"]
     operation = staticmethod(methods.loc)
+    # output partition i reads input partition start + i
+    _is_partitionwise = False
 
     @functools.cached_property
     def _meta(self):
